@@ -88,6 +88,10 @@ def cases(rng, tier, shard, nshards):
         yield dict(kind='broadcast', method=str(rng.choice(['central', 'forward', 'backward', 'complex', 'multicomplex'])), n=int(rng.integers(1, 3)),
                    order=int(rng.choice([2, 4])), k=int(rng.integers(2, 5)), m=int(rng.integers(2, 5)), seed=int(rng.integers(0, 2 ** 31)),
                    trailing=bool(rng.random() < 0.7))
+    for j in range(6 if tier == 'quick' else 60):
+        # complex-valued results of which the *first* entry happens to be exactly real (the rest is genuinely complex)
+        yield dict(kind='first_entry_real', cls=['Derivative', 'Jacobian'][j % 2], method=str(rng.choice(['central', 'central', 'forward', 'backward'])),
+                   order=int(rng.choice([2, 4])), seed=int(rng.integers(0, 2 ** 31)))
     ncells = sum((D.NMAX[m] + 1) * 8 for m in D.METHODS)
     k = shard
     for i in range(total):
@@ -503,7 +507,49 @@ def run_broadcast(case, ctx):
     ctx.nontrivial(('broadcast', method, n, case['trailing']))
 
 
+def run_first_entry_real(case, ctx):
+    """A complex-valued function with the real-step methods, where the first entry of every table of estimates has an imaginary
+    part that is exactly zero: f(z) = sin z + i (z - x_0)^2 on the points [x_0, x_1, x_2] (its central differences at x_0 have
+    imaginary part exactly 0), or a Jacobian whose first component function is real."""
+    import numdifftools as nd
+    rng = np.random.default_rng(case['seed'])
+    x = np.round(np.sort(rng.uniform(0.2, 2.5, size=3)), 3)
+    x[0] = float(rng.choice([0.5, 1.0, 0.25, 0.75]))
+    method, order = case['method'], case['order']
+    try:
+        with np.errstate(all='ignore'):
+            if case['cls'] == 'Derivative':
+                val, info = nd.Derivative(lambda z: np.sin(z) + 1j * (z - x[0]) * (z - x[0]), method=method, order=order, full_output=True)(x.copy())
+                exact = np.cos(x) + 2j * (x - x[0])
+            else:
+                val, info = nd.Jacobian(lambda z: np.array([np.sin(z[0]) * z[1], np.exp(1j * z[0]) * z[2], z[1] * z[2] * (1 + 2j)]),
+                                        method=method, order=order, full_output=True)(x.copy())
+                exact = np.array([[np.cos(x[0]) * x[1], np.sin(x[0]), 0.0],
+                                  [1j * np.exp(1j * x[0]) * x[2], 0.0, np.exp(1j * x[0])],
+                                  [0.0, x[2] * (1 + 2j), x[1] * (1 + 2j)]])
+    except Exception as exc:
+        ctx.reject('raised', observed='%s: %s' % (type(exc).__name__, str(exc)[:150]), first_entry_real=True, method=method)
+        return
+    val = np.asarray(val)
+    est = np.abs(np.asarray(info.error_estimate)).astype(float)
+    ctx.count('first_entry_real_cases')
+    if val.shape != exact.shape or est.shape != val.shape:
+        ctx.reject('record_shape', observed=[list(val.shape), list(est.shape)], expected=list(exact.shape), first_entry_real=True)
+        return
+    err = np.abs(val - exact)
+    bound = 1000.0 * est + 1e-8 * (1.0 + np.abs(exact))
+    ctx.count('first_entry_real_entries_asserted', int(err.size))
+    if np.any(err > bound):
+        idx = np.unravel_index(int(np.argmax(err - bound)), err.shape)
+        ctx.reject('error_exceeds_estimate', observed=complex(val[idx]), expected=complex(exact[idx]),
+                   detail=dict(est=float(est[idx]), entry=[int(v) for v in idx], result_dtype=str(val.dtype)), first_entry_real=True, method=method, cls=case['cls'])
+        return
+    ctx.nontrivial(('first_entry_real', case['cls'], method, order))
+
+
 def run_case(case, ctx):
+    if case['kind'] == 'first_entry_real':
+        return run_first_entry_real(case, ctx)
     if case['kind'] == 'broadcast':
         return run_broadcast(case, ctx)
     if case['kind'] == 'overlap':
